@@ -1912,6 +1912,9 @@ impl World {
         pdata[8..40].copy_from_slice(if auth_mode == 4 { k(0x77, 1) } else { fx.pool }.as_ref());
         pdata[40..72].copy_from_slice(pmint.as_ref());
         let pos_units = *base.pos_rent.get(&id).unwrap_or(&2);
+        // (two positions in three predate the tick-rent scheme and hold the rent of no / one tick: the handler tops up
+        // before the new range's ticks are paid for, or the position would dip under its own rent exemption)
+        let pos_units = pos_units.min((id % 3) as _);
         fx.bank.set(position, ::whirlpool::ID, min_balance(pdata.len()) + pos_units as u64 * TICK_RENT, pdata);
         fx.bank.set(pmint, anchor_spl::token::ID, 1_000_000, crate::fixture::mint_data(false, 0, None, 0));
         fx.bank.set(ptoken, anchor_spl::token::ID, 2_000_000, crate::fixture::token_account_data(false, &pmint, &fx.trader, if auth_mode == 5 { 0 } else { 1 }, false)); // mode 5: the signer's account of the position mint is EMPTY
